@@ -119,6 +119,9 @@ package core
 //@   assume at call conn.sread#0 :: (hd(s) != nil && hd(s).Peer != nil) ==> (forall k int32 :: has(hd(s).Peer.Body, k) ==> hd(s).Peer.Body[k] != nil)
 //@   assume at call conn.sread#0 :: (hd(s) != nil && hd(s).Peer != nil) ==> (hd(s).Peer.RspBody == nil || hd(s).RspBody == nil || hd(s).RspBody.base != hd(s).Peer.RspBody.base)
 //@   assume at call listenServer.OnMoved#0 :: r.Peer.Fd2Slot != nil
+//@   assert[redirect.target.moved@C13] at call listenServer.OnMoved#0 :: (r.Type == codec.RspMoved && len(r.RspBody) >= 10 && nfields(redirtext(r, 7), " ") >= 2) ==> arg1 == fieldof(redirtext(r, 7), " ", 1)
+//@   assert[redirect.target.ask@C13] at call listenServer.OnMoved#0 :: (r.Type == codec.RspAsk && len(r.RspBody) >= 10 && nfields(redirtext(r, 5), " ") >= 2) ==> arg1 == fieldof(redirtext(r, 5), " ", 1)
+//@   assert[redirect.frag@C13] at call listenServer.OnMoved#0 :: arg3 == s && arg4 == r
 //@   label W at call RingBuffer.Write#0
 //@   assume at call RingBuffer.Write#0 :: elastic.ewf(s.inboundBuffer) && (s.inboundBuffer.rb == nil || s.buffer.base != s.inboundBuffer.rb.buf.base)
 //@   ensures[leftover@C08] reached(W) ==> (elastic.elen(s.inboundBuffer) == atlabel(W, slen(s)) && (forall k int :: (0 <= k && k < elastic.elen(s.inboundBuffer)) ==> elastic.eat(s.inboundBuffer, k) == atlabel(W, sat(s, k))))
